@@ -198,3 +198,42 @@ func H_C05_copy2() {
 	}
 	vcover("end")
 }
+
+// H_C05_copy3: a binary source whose local symbol has an arbitrary ASCII byte in its text ("x" c "y", c symbolic: control
+// characters, quotes, backslash, operator characters, letters): the symbol is used as annotation, field name and value.
+// Every destination must carry the exact text (text destinations: re-read by the Reader; binary: independent decoder).
+func H_C05_copy3() {
+	dst := vparam("dst", 0)
+	c := vnondetU8()
+	vassume(c < 0x80)
+	lst := vTLV(0xE0, vCat([]byte{0x81, 0x83}, vTLV(0xD0, vCat([]byte{0x87}, vTLV(0xB0, vTLV(0x80, 'x', c, 'y')...))...))...)
+	st := vTLV(0xD0, 0x8A, 0x71, 0x0A)
+	val := vTLV(0xE0, vCat([]byte{0x81, 0x8A}, st)...)
+	r := NewReaderBytes(vCat(vBVM, lst, val))
+	out := &vSink{failAt: -1}
+	wr := vNewWriter(dst, out)
+	vassert(vCopyAll(r, wr), "the copy loop succeeds on an accepted document")
+	vassert(wr.Finish() == nil, "Finish succeeds")
+	want := string([]byte{'x', c, 'y'})
+	var got [3]vSym
+	if dst >= 2 {
+		d, ok := refBinDecode(out.buf, nil)
+		vassert(ok && !d.unsure, "binary copy is well-formed under the independent decoder")
+		vassert(!d.undef, "binary copy defines every symbol ID it uses")
+		us := d.user()
+		vassert(len(us) == 2 && len(us[0].ann) == 1 && us[1].hasField, "the copy holds the same values, annotation and field name")
+		conv := func(s rSym) vSym { return vSym{present: true, hasText: s.known, text: s.text, sid: int64(s.sid)} }
+		got = [3]vSym{conv(us[0].ann[0]), conv(us[1].field), conv(us[1].sym)}
+	} else {
+		r2 := NewReaderBytes(out.buf)
+		var evs []vEv
+		stepErr := vTraverse(r2, 0, 4, false, &evs)
+		vassert(!stepErr && r2.Err() == nil, "text copy is read back without error")
+		vassert(len(evs) == 2 && len(evs[0].ann) == 1 && evs[1].field.present, "the copy holds the same values, annotation and field name")
+		got = [3]vSym{evs[0].ann[0], evs[1].field, evs[1].sym}
+	}
+	for i := range got {
+		vassert(got[i].hasText && got[i].text == want, "every symbol is carried by its exact text, whatever characters it holds")
+	}
+	vcover("end")
+}
